@@ -219,8 +219,9 @@ func runCheck(id, repo, verif, tier string, seed int, freeze bool, keep string, 
 			ev.Status = "cover:" + r.R.Status
 		}
 		evObls = append(evObls, ev)
-		if r.R.Status == "conflict" {
+		if r.R.Status == "conflict" || r.R.Status == "error" {
 			conflicts++
+			fmt.Println("ENGINE-ERROR: query for", r.O.Name, "was rejected by every solver:", firstLines(r.R.Raw, 2))
 		}
 		if r.ok() {
 			discharged++
@@ -318,7 +319,7 @@ func runCheck(id, repo, verif, tier string, seed int, freeze bool, keep string, 
 		os.WriteFile(filepath.Join(verif, "evidence", id+".json"), b, 0644)
 	}
 	if conflicts > 0 {
-		fmt.Println("ENGINE-ERROR: solver disagreement on", conflicts, "queries")
+		fmt.Println("ENGINE-ERROR: solver disagreement or malformed query on", conflicts, "queries")
 		return 2
 	}
 	if violations > 0 {
